@@ -756,6 +756,9 @@ class Fxp():
 
         if vdtype is None:
             vdtype = val.dtype
+            if vdtype.kind in 'iu' and vdtype.itemsize < 8:
+                # (a list of narrow NumPy integers: the values are scaled in their value type, where they would wrap around)
+                vdtype = int
         
         # scaling conversion
         # (the object keeps its scale and bias whatever the form of this input: a raw code is stored as it is, but read back scaled)
